@@ -1439,6 +1439,116 @@ func staleOrigin(res *shard.Result) {
 	}
 }
 
+// failedRefresh (same child process): a resident item of an ExpirableCache has expired and the create function
+// fails when the call tries to replace it. The statement does not say whether the expired item stays ("a failed
+// creation changes nothing") or leaves (as the code does: expiry replacement first removes it), so only what both
+// readings determine is judged: one creation attempt; a call that reports no error returns a value that has not
+// been handed to the delete callback; the expired item gets at most one delete callback, no other resident gets
+// any; the next call for the key with a working origin creates exactly one item, returns it, and by then the
+// expired item has had exactly one delete callback; capacity and list hold (hook).
+func failedRefresh(res *shard.Result) {
+	type cfg struct {
+		Cap      int  `json:"cap"`
+		Resident int  `json:"resident"` // keys 0..Resident-1 inserted fresh, least recently used first
+		Key      int  `json:"key"`      // the resident key whose item expires
+		Zero     bool `json:"expiry_zero_time"`
+	}
+	var cfgs []cfg
+	for cp := 1; cp <= 4; cp++ {
+		for n := 1; n <= cp; n++ {
+			for k := 0; k < n; k++ {
+				cfgs = append(cfgs, cfg{cp, n, k, false}, cfg{cp, n, k, true})
+			}
+		}
+	}
+	for _, c := range cfgs {
+		var reg []*xval
+		type del struct{ key, id int }
+		var dels []del
+		attempts, fail := 0, false
+		create := func(key int) (*xval, error) {
+			attempts++
+			if fail {
+				return nil, fmt.Errorf("origin down")
+			}
+			v := &xval{lru.NewCacheItem(len(reg)+1, farFuture)}
+			reg = append(reg, v)
+			return v, nil
+		}
+		cache, err := lru.NewExpirableCache[int, *xval](c.Cap, create, func(key int, v *xval) { dels = append(dels, del{key, v.Value}) })
+		if err != nil {
+			res.Violation("lru/expirable/constructor/rejects-valid", err.Error(), c)
+			continue
+		}
+		ids := map[int]int{}
+		for k := 0; k < c.Resident; k++ {
+			v, _ := cache.GetOrCreate(k)
+			ids[k] = v.Value
+		}
+		old := ids[c.Key]
+		at := farPast
+		if c.Zero {
+			at = time.Time{}
+		}
+		reg[old-1].ExpirableItem = lru.NewCacheItem(old, at)
+		dels, attempts, fail = dels[:0], 0, true
+		got, gerr := cache.GetOrCreate(c.Key)
+		fail = false
+		res.Evals++
+		res.Counters["failed_refresh_calls"]++
+		res.Classes = append(res.Classes, fmt.Sprintf("failed-refresh|cap=%d|resident=%d|key=%d|zero=%v|err=%v|dels=%d", c.Cap, c.Resident, c.Key, c.Zero, gerr != nil, len(dels)))
+		bad := func(sig, what string) {
+			res.Violation("lru/expirable/failed-refresh/"+sig, fmt.Sprintf("capacity %d, residents 0..%d, item #%d of key %d expired, GetOrCreate(%d) with a failing create function: %s; creation attempts %d, delete callbacks %v", c.Cap, c.Resident-1, old, c.Key, c.Key, what, attempts, dels), c)
+		}
+		if attempts != 1 {
+			bad("create-calls", fmt.Sprintf("%d creation attempts, want 1", attempts))
+		}
+		cnt := map[int]int{}
+		for _, d := range dels {
+			cnt[d.id]++
+			if d.id != old {
+				bad("delete-calls", fmt.Sprintf("resident item #%d got a delete callback although nothing was inserted", d.id))
+			} else if d.key != c.Key {
+				bad("delete-calls", fmt.Sprintf("delete callback for item #%d came with key %d, want %d", d.id, d.key, c.Key))
+			}
+		}
+		if cnt[old] > 1 {
+			bad("delete-calls", fmt.Sprintf("the expired item #%d got %d delete callbacks", old, cnt[old]))
+		}
+		if gerr == nil {
+			if got == nil {
+				bad("value", "returned (nil, nil)")
+			} else if cnt[got.Value] != 0 {
+				bad("deleted-value-returned", fmt.Sprintf("returned item #%d without an error after handing it to the delete callback", got.Value))
+			}
+		}
+		if _, length, inflight, herr := cache.VerifRetained(); herr != nil || length > c.Cap || inflight != 0 {
+			bad("hook", fmt.Sprintf("after the call: %d resident (capacity %d), %d in flight, list check: %v", length, c.Cap, inflight, herr))
+		}
+		// the origin is back
+		attempts = 0
+		got2, gerr2 := cache.GetOrCreate(c.Key)
+		res.Evals++
+		if gerr2 != nil || got2 == nil || attempts != 1 || got2.Value != len(reg) || got2.Value == old {
+			bad("follow-up", fmt.Sprintf("the next GetOrCreate(%d) with a working create function returned (%v, %v) after %d creation attempts, want the one newly created item #%d", c.Key, got2, gerr2, attempts, len(reg)))
+			continue
+		}
+		cnt = map[int]int{}
+		for _, d := range dels {
+			cnt[d.id]++
+		}
+		if cnt[old] != 1 {
+			bad("follow-up", fmt.Sprintf("after its replacement the expired item #%d has had %d delete callbacks, want 1", old, cnt[old]))
+		}
+		if cnt[got2.Value] != 0 {
+			bad("follow-up", fmt.Sprintf("the resident item #%d got a delete callback", got2.Value))
+		}
+		if _, length, inflight, herr := cache.VerifRetained(); herr != nil || length > c.Cap || inflight != 0 {
+			bad("hook", fmt.Sprintf("after the follow-up call: %d resident (capacity %d), %d in flight, list check: %v", length, c.Cap, inflight, herr))
+		}
+	}
+}
+
 func TestChild(t *testing.T) {
 	if _, _, _, ok := shard.Child(); !ok {
 		t.Skip("not a shard child")
@@ -1446,6 +1556,7 @@ func TestChild(t *testing.T) {
 	debug.SetMaxStack(64 << 20) // a GetOrCreate that re-enters itself for ever ends quickly
 	res := shard.NewResult()
 	staleOrigin(res)
+	failedRefresh(res)
 	shard.Emit(res)
 }
 
@@ -1454,7 +1565,7 @@ func TestCheck(t *testing.T) {
 	defer run.Finish(t)
 	run.Rule("every legal call sequence over {GetOrCreate(k) with a succeeding create, GetOrCreate(k) with a failing create, Remove(k), Clear (, Expire(k) for the expirable variant; both spellings of k for the ECache variant)} to the stated depth for capacities 1..4 on lru.Cache, lru.ECache(strings.ToLower) and lru.ExpirableCache, with and without a delete callback, each followed by an ending that exposes the whole recency order (Clear, or probe + cap fresh insertions + Clear); plus seeded random sequences of 10^3..10^4 calls for capacities up to 64 over about 2*capacity keys; after every call the returned value/error/bool/count, the create-callback calls and the delete-callback calls of that call and the resident count (hook) are compared with a list model. distinct = distinct (variant, callback present, capacity, recency order of resident keys incl. stored spelling and expired flag, operation, outcome class) transitions observed (for capacities > 4 the order is replaced by the number of residents)")
 	run.Assume("single goroutine per cache (concurrency is C09)")
-	run.Assume("expirable variant: items are created fresh (expiry year 2400) and become expired only by the harness moving the resident item's expiry to 1971 or to the zero time (both lie before any now) (custom CacheItem embedding lru.ExpirableItem); in the model-checked sequences a create function that returns an already expired item and a failing re-creation of an expired resident are not generated because the statement does not define them; origins serving stale items are driven separately (child process) and judged only on what the statement determines: the call returns, replaced items get exactly one delete callback, the resident one none, at most the least recently used resident is evicted")
+	run.Assume("expirable variant: items are created fresh (expiry year 2400) and become expired only by the harness moving the resident item's expiry to 1971 or to the zero time (both lie before any now) (custom CacheItem embedding lru.ExpirableItem); in the model-checked sequences a create function that returns an already expired item and a failing re-creation of an expired resident are not generated because the statement does not define them; origins serving stale items are driven separately (child process) and judged only on what the statement determines: the call returns, replaced items get exactly one delete callback, the resident one none, at most the least recently used resident is evicted; a failing re-creation of an expired resident is driven separately as well (child process, capacities 1..4, every resident position, expiry 1971 and zero time) and judged on what both readings determine: one creation attempt, a call that reports no error does not return an item already handed to the delete callback, the expired item gets at most one delete callback and no other resident any, the next call with a working origin creates and returns exactly one new item by when the expired one has had exactly one delete callback")
 	run.Assume("the order of the delete callbacks inside one Clear is taken to be least-recently-used first (DESIGN §3 C08); a reordering is reported under its own signature …/Clear[clear]/callback-order")
 	run.Assume("the relative order of create-callback and delete-callback calls inside one call is not judged")
 
